@@ -1113,7 +1113,13 @@ def run(ctx):
                 "only. Neighbours histories: 2-3 DIFFERENT fits (own name / path prefix / unique tag / model, with or without the identifier "
                 "folder; names with dots, one a prefix of the other, differing only after the last dot, '.zip'/'.tmp' inside) run in one output "
                 "directory in any order with kills in between (12 per quick run, 4 shapes fixed: dotted siblings without identifier folder), each "
-                "fit judged on the whole history; plus one pair <stem> / <stem>.zip (known finding). Non-trivial = some run was really killed and a later run ran to its end (database histories: at least two runs); "
+                "fit judged on the whole history; plus one pair <stem> / <stem>.zip (known finding). Exception deaths: a run ended by an exception "
+                "raised in user code and travelling through the library's try/finally / except blocks (not a kill): at every user hook "
+                "(modify_before_fit, save_attributes, visualize_before_fit[_combined], visualize[_combined], save_results, save_results_combined, "
+                "modify_after_fit; on entry and after the hook's work) and at the first / a middle / the last two likelihood calls, one BaseException-only "
+                "kind (KeyboardInterrupt | SystemExit) and one Exception kind (MemoryError | OSError | RuntimeError) per point, in fresh runs, resumed "
+                "runs and re-runs of a completed fit -- the same ~45 points in every quick run (x3 configurations in the thorough tier), reported to "
+                "the model as (mutations so far, killed-before) with everything written during propagation in the trace. Non-trivial = some run was really killed and a later run ran to its end (database histories: at least two runs); "
                 "distinct = distinct (settings, run list)")
     ctx.trusted = [
         "Coq 8.16.1 kernel incl. vm_compute",
@@ -1307,6 +1313,11 @@ MANIFEST = {
             "recoverable states resume to a complete result (resume; unconditional for the repaired code), with _refuted witnesses for the "
             "archive-write window, LBFGS resume, truncated search state / summary, empty timer files; vm_compute correspondence of the model "
             "with real killed/re-run fits (trace, outcome, folder, archive) and a direct property oracle; "
+            "death by a propagating exception at every point where user code runs (Raise.v: library handlers as unwind operations; for any "
+            "history of runs, kills and exception deaths `.completed` implies a stored complete result, the next run resumes to a complete "
+            "result and a later run does not sample; the variant with paths.completed() in a finally block refuted), exercised by "
+            "raise-injecting Analysis hooks x BaseException / Exception kinds with the oracle rules marker-implies-promised-files and "
+            "marking-run-ran-every-output-hook; "
             "naming model (folder / archive / temporary archive / marker of a fit; suffixes translated fail-closed from _zip_path, zip_directory, "
             "_has_completed_path, output_path pinned) with theorems: the archive name determines the folder, two different legal fits share no "
             "name, and in any interleaving of runs and crashes of several fits in one directory each fit sees exactly its own history (hence "
